@@ -44,6 +44,9 @@ def _run_one(i):
              "branch_checks": 0, "meta": {}}
     r["functions"] = spec.functions
     r["bounded"] = spec.bounded
+    if os.environ.get("A5VERIF_PROGRESS"):
+        sys.stderr.write("[task %.1fs %s] %s vcs=%d\n" % (time.time() - t0, r.get("status"), spec.name, len(r.get("vcs", []))))
+        sys.stderr.flush()
     return r
 
 
